@@ -103,19 +103,203 @@ class RunResult:
         self.extra = {}
 
 
-def run_case(case, monitor, storage_factory=None, hooks=None, extra_rounds=6, keep_engine=False):
-    """Execute one case on the real engine and have the Coq monitor judge the observed trace."""
+PSEUDO = {101: "INDEX_ORACLE", 102: "STORAGE_ORACLE", 103: "RELOAD_ORACLE", 104: "CURSOR_AHEAD", 105: "LOOP_DIED"}
+GUARDS.update(PSEUDO)
+
+
+class CursorWatch:
+    """C06: observes, per side, which provider events have been applied (state.update + commit done) and which
+    cursor values are written to storage; a stored cursor must never be ahead of the applied events."""
+
+    def __init__(self):
+        self.applied = {0: -1, 1: -1}       # highest provider event index whose processing completed
+        self.yielded = {0: -1, 1: -1}
+        self.ahead = []
+        self.pending = []
+        self.saves = 0
+        self.fallbacks = 0
+        self.walked = {}
+
+    def end_of_step(self, eng=None):
+        """at a step boundary every stored cursor must be <= the last applied event of its side, unless the
+        event manager has fallen back to a full walk (cursor missing or rejected: the walk re-discovers)"""
+        for side, data in self.pending:
+            if data > self.applied[side]:
+                if eng is not None and (eng.cs.emgrs[side].need_walk or self.walked.get(side)):
+                    self.applied[side] = data
+                    self.fallbacks += 1
+                else:
+                    self.ahead.append((side, data, self.applied[side]))
+        self.pending = []
+        self.walked = {}
+
+    def attach(self, eng):
+        watch = self
+        for side in (0, 1):
+            em = eng.cs.emgrs[side]
+            prov = eng.world.provs[side]
+            orig_pe = em._process_event
+
+            def mk(side, orig_pe, prov):
+                def pe(event, from_walk=False):
+                    cur = prov._cursor
+                    r = orig_pe(event, from_walk=from_walk)
+                    if not from_walk:
+                        watch.applied[side] = max(watch.applied[side], cur)
+                    return r
+                return pe
+            em._process_event = mk(side, orig_pe, prov)
+            orig_walk = em._do_walk_if_needed
+
+            def mkw(side, orig_walk, em):
+                def walk():
+                    if em.need_walk:
+                        watch.walked[side] = True
+                    return orig_walk()
+                return walk
+            em._do_walk_if_needed = mkw(side, orig_walk, em)
+        st = eng.cs.state
+        orig_upd = st.storage_update_data
+
+        def upd(tag, data):
+            if tag and "_cursor" in tag and isinstance(data, int):
+                side = 0 if eng.cs.emgrs[0]._cursor_tag == tag else 1
+                watch.saves += 1
+                watch.pending.append((side, data))      # judged at the end of the engine step (a stop point)
+            return orig_upd(tag, data)
+        st.storage_update_data = upd
+        self.start_cursor = {s: eng.world.provs[s]._cursor for s in (0, 1)}
+        for s in (0, 1):
+            self.applied[s] = max(self.applied[s], eng.world.provs[s]._cursor)
+
+
+def run_case(case, monitor, storage_factory=None, hooks=None, extra_rounds=6, keep_engine=False, oracles=()):
+    """Execute one case on the real engine and have the Coq monitor judge the observed trace.
+
+    Extra schedule actions: ["restart", mode] (mode: intact | cursor_removed | cursor_rejected),
+    ["crash", kind, k] (kind: storage_before | provider_after; the process dies there, then a new engine is
+    started over the surviving storage and providers), ["faults", plan] / ["faults_off"].
+    oracles: "index" (C11 on every state), "storage" (C08 after every step), "cursor" (C06)."""
     fl = E.Flavour.from_key(case["flavour"])
     E.install(case.get("hash_mult", 1))
     E.reset_serials()
     world = E.World(fl)
-    storage = storage_factory() if storage_factory else None
+    tstore = None
+    storage = None
+    if storage_factory == "sqlite-file":
+        tstore = E.TempStorage()
+        storage = tstore.open()
+    elif storage_factory:
+        storage = storage_factory()
     res = RunResult()
     it = Interner()
     hooks = hooks or {}
-    eng = E.Engine(world, storage=storage, resolver=hooks.get("resolver"), smart=hooks.get("smart", False),
-                   translate=hooks.get("translate"))
+    H = dict(eng=None)
+    pseudo = []        # (observation index, pseudo code, detail)
+    cursor_watch = CursorWatch() if "cursor" in oracles else None
+    index_violations = compare_storage = None
+    if "index" in oracles:
+        from .state_oracle import index_violations
+    if "storage" in oracles:
+        from .storage_oracle import compare_storage_with_memory as compare_storage
+    prev = [None, None]
+    obs = []
+
+    def new_engine():
+        eng = E.Engine(world, storage=storage, resolver=hooks.get("resolver"), smart=hooks.get("smart", False),
+                       translate=hooks.get("translate"))
+        eng.on_action = on_action
+        if H.get("fault_plan"):
+            eng.fault_plan = H["fault_plan"]
+        if cursor_watch:
+            cursor_watch.attach(eng)
+        H["eng"] = eng
+        return eng
+
+    def emit(ev, readable):
+        cur = [world.snapshot(0), world.snapshot(1)]
+        w = [0 if cur[s] == prev[s] else it.tree(cur[s]) for s in (0, 1)]
+        prev[0], prev[1] = cur
+        obs.append([ev, w[0], w[1]])
+        res.events.append(readable)
+
+    def on_action(rec):
+        if not H.get("recording"):
+            return
+        emit([1, rec["side"], [it.path(t) for t in rec["targets"]]],
+             ("eng", rec["side"], rec["call"], [a if not isinstance(a, bytes) else a[:20] for a in rec["args"]],
+              rec.get("error")))
+
+    def check_oracles():
+        eng = H["eng"]
+        if index_violations is not None:
+            bad = [b for b in index_violations(eng.cs.state) if not b.startswith("iv-extra")]
+            if bad:
+                pseudo.append((len(obs), 101, bad[:3]))
+        if compare_storage is not None and storage is not None:
+            bad = compare_storage(eng.cs.state, storage, eng.cs.state._tag)
+            if bad:
+                pseudo.append((len(obs), 102, [repr(b)[:200] for b in bad[:3]]))
+        if cursor_watch:
+            cursor_watch.end_of_step(H["eng"])
+            if cursor_watch.ahead:
+                pseudo.append((len(obs), 104, list(cursor_watch.ahead)))
+                cursor_watch.ahead.clear()
+
+    def step(kind, side=None):
+        eng = H["eng"]
+        if kind == "intake":
+            eng.intake(side)
+        else:
+            eng.sync()
+        emit([2], (kind, side))
+        if oracles:
+            check_oracles()
+
+    def drain(bound):
+        for i in range(bound):
+            if not H["eng"].busy():
+                emit([3], ("quiet",))
+                res.rounds.append(i)
+                return True
+            step("intake", 0)
+            step("intake", 1)
+            step("sync")
+        if not H["eng"].busy():
+            emit([3], ("quiet",))
+            res.rounds.append(bound)
+            return True
+        return False
+
+    def restart(mode):
+        nonlocal storage
+        eng = H["eng"]
+        eng.stop()
+        if storage is not None and tstore is not None:
+            if mode in ("cursor_removed", "cursor_rejected"):
+                allrows = storage.read_all()
+                for tag, rows in allrows.items():
+                    if "_cursor" in tag:
+                        for eid in rows:
+                            if mode == "cursor_removed":
+                                storage.delete(tag, eid)
+                            else:
+                                storage.update(tag, "rejected-cursor", eid)
+            storage.close()
+            storage = tstore.open()
+        new_engine()
+        res.extra["restarts"] = res.extra.get("restarts", 0) + 1
+
+    def crash_recover():
+        nonlocal storage
+        H["eng"].kill()
+        if storage is not None and tstore is not None:
+            storage.close()
+            storage = tstore.open()
+        new_engine()
+
     try:
+        eng = new_engine()
         # ---- base tree: applied on side 0 (and anything in case['base_other'] on side 1) and synchronised
         for op in case.get("base", []):
             world.user(0, op)
@@ -130,78 +314,78 @@ def run_case(case, monitor, storage_factory=None, hooks=None, extra_rounds=6, ke
         if hooks.get("after_base"):
             hooks["after_base"](eng, world)
         eng.trace.clear()
-        prev = [world.snapshot(0), world.snapshot(1)]
+        H["recording"] = True
+        prev[0], prev[1] = world.snapshot(0), world.snapshot(1)
         init = [it.tree(prev[0]), it.tree(prev[1])]
-        obs = []
-
-        def emit(ev, readable):
-            cur = [world.snapshot(0), world.snapshot(1)]
-            w = [0 if cur[s] == prev[s] else it.tree(cur[s]) for s in (0, 1)]
-            prev[0], prev[1] = cur
-            obs.append([ev, w[0], w[1]])
-            res.events.append(readable)
-
-        def on_action(rec):
-            emit([1, rec["side"], [it.path(t) for t in rec["targets"]]],
-                 ("eng", rec["side"], rec["call"], [a if not isinstance(a, bytes) else a[:20] for a in rec["args"]],
-                  rec.get("error")))
-        eng.on_action = on_action
-
-        def step(kind, side=None):
-            if kind == "intake":
-                eng.intake(side)
-            else:
-                eng.sync()
-            emit([2], (kind, side))
-
-        def drain(bound):
-            for i in range(bound):
-                if not eng.busy():
-                    emit([3], ("quiet",))
-                    res.rounds.append(i)
-                    return True
-                step("intake", 0)
-                step("intake", 1)
-                step("sync")
-            if not eng.busy():
-                emit([3], ("quiet",))
-                res.rounds.append(bound)
-                return True
-            return False
-
         n_user = 0
+        crashed = False
         for act in case["schedule"]:
             k = act[0]
-            if k == "user":
-                side, op = act[1], act[2]
-                world.user(side, op)
-                n_user += 1
-                emit([0, side, it.op(op)], ("user", side, op[0], op[1:]))
-            elif k == "intake":
-                step("intake", act[1])
-            elif k == "sync":
-                step("sync")
-            elif k == "drain":
+            try:
+                if k == "user":
+                    side, op = act[1], act[2]
+                    world.user(side, op)
+                    n_user += 1
+                    emit([0, side, it.op(op)], ("user", side, op[0], op[1:]))
+                elif k == "intake":
+                    step("intake", act[1])
+                elif k == "sync":
+                    step("sync")
+                elif k == "drain":
+                    if not drain(400):
+                        res.stuck = True
+                        break
+                elif k == "restart":
+                    restart(act[1])
+                elif k == "stop":
+                    H["eng"].stop()
+                elif k == "start":
+                    restart(act[1])
+                elif k == "crash":
+                    H["eng"].crash_at = (act[1], (H["eng"].storage_writes if act[1] == "storage_before" else H["eng"].provider_writes) + act[2])
+                elif k == "faults":
+                    H["fault_plan"] = hooks["make_fault_plan"](act[1], H)
+                    H["eng"].fault_plan = H["fault_plan"]
+                elif k == "faults_off":
+                    H["fault_plan"] = None
+                    H["eng"].fault_plan = None
+                    if hooks.get("on_faults_off"):
+                        hooks["on_faults_off"](H["eng"], world)
+                elif k == "hook":
+                    hooks[act[1]](H["eng"], world, act[2:] if len(act) > 2 else [])
+                else:
+                    raise ValueError(k)
+            except E.Token:
+                # the process died inside that action: whatever reached the providers is observed as is
+                crashed = True
+                res.extra["crashed_at"] = list(H["eng"].crash_at)
+                if H["eng"].trace and "result" not in H["eng"].trace[-1] and "error" not in H["eng"].trace[-1]:
+                    pass
+                emit([2], ("crash",))
+                crash_recover()
+                break
+        if not res.stuck:
+            try:
                 if not drain(400):
                     res.stuck = True
-                    break
-            elif k == "hook":
-                hooks[act[1]](eng, world, act[2:] if len(act) > 2 else [])
-            else:
-                raise ValueError(k)
-        if not res.stuck:
-            if not drain(400):
-                res.stuck = True
+            except E.Token:
+                crashed = True
+                res.extra["crashed_at"] = list(H["eng"].crash_at)
+                emit([2], ("crash",))
+                crash_recover()
+                if not drain(400):
+                    res.stuck = True
         if not res.stuck:
             # no echo: further engine rounds after quiet must not write
             for _ in range(extra_rounds):
                 step("intake", 0)
                 step("intake", 1)
                 step("sync")
-            if eng.busy():
+            if H["eng"].busy():
                 drain(50)
             else:
                 emit([3], ("quiet",))
+        eng = H["eng"]
         mode = case.get("mode", {})
         bound = case.get("step_bound") or 3 * (STEP_BOUND_BASE + STEP_BOUND_PER_OP * max(1, n_user))
         cfg = [it.path(fl.roots[0]), it.path(fl.roots[1]),
@@ -212,23 +396,36 @@ def run_case(case, monitor, storage_factory=None, hooks=None, extra_rounds=6, ke
         res.verdict = monitor.call(res.request)
         if res.stuck and res.verdict == []:
             res.verdict = [len(obs), 11]
+        if pseudo and (res.verdict == [] or pseudo[0][0] <= res.verdict[0]):
+            res.verdict = [pseudo[0][0], pseudo[0][1]]
+            res.extra["oracle_detail"] = pseudo[0][2]
         res.final_views = [world.view(0), world.view(1)]
         res.loop_errors = list(eng.loop_errors)
         res.engine_calls = len(eng.trace)
         res.extra["notifications"] = list(eng.notifications)
         res.extra["resolver_calls"] = list(eng.resolver_calls)
+        res.extra["crashed"] = crashed
+        res.extra["storage_writes"] = eng.storage_writes
+        res.extra["provider_writes"] = eng.provider_writes
+        if cursor_watch:
+            res.extra["cursor_saves"] = cursor_watch.saves
         if keep_engine:
             res.extra["engine"] = eng
             res.extra["world"] = world
         return res
     finally:
         if not keep_engine:
-            eng.stop()
+            try:
+                H["eng"].stop()
+            except Exception:
+                pass
             if storage is not None and hasattr(storage, "close"):
                 try:
                     storage.close()
                 except Exception:
                     pass
+            if tstore is not None:
+                tstore.close()
 
 
 def describe(res):
@@ -236,7 +433,8 @@ def describe(res):
         return "accepted"
     i, code = res.verdict
     ev = res.events[i] if i < len(res.events) else "(end of run: engine still busy)"
-    return "guard %s fails at observation %d %r" % (GUARDS.get(code, code), i, ev)
+    extra = (" detail %r" % (res.extra.get("oracle_detail"),)) if code > 100 else ""
+    return "guard %s fails at observation %d %r%s" % (GUARDS.get(code, code), i, ev, extra)
 
 
 # ------------------------------------------------------------------ generators (clean domain, DESIGN §4.3)
@@ -391,6 +589,36 @@ class Gen:
             del t[rel]
             self.sched.append(["user", side, ["delete", self.abs(side, rel)]])
             self.drain()
+
+    def offline_op(self, side, creations_only=False):
+        """a file-level operation that needs no drain (used while the engine is stopped)"""
+        r = self.rng.random()
+        t = self.tree
+        if r < 0.4 or not self.files(side):
+            return self.one_op_simple(side)
+        if r < 0.65:
+            rel = self.rng.choice(self.files(side))
+            self.sched.append(["user", side, ["write", self.abs(side, rel), self.content()]])
+        elif r < 0.75:
+            d = self.rng.choice(self.dirs(side))
+            rel = d + "/" + self.fresh("D")
+            t[rel] = "D"
+            self.claim(side, rel)
+            self.sched.append(["user", side, ["mkdir", self.abs(side, rel)]])
+        elif creations_only:
+            return self.one_op_simple(side)
+        elif r < 0.9:
+            src = self.rng.choice(self.files(side))
+            d = self.rng.choice(self.dirs(side))
+            dst = d + "/" + self.fresh("F")
+            del t[src]
+            t[dst] = "F"
+            self.claim(side, dst)
+            self.sched.append(["user", side, ["rename", self.abs(side, src), self.abs(side, dst)]])
+        else:
+            rel = self.rng.choice(self.files(side))
+            del t[rel]
+            self.sched.append(["user", side, ["delete", self.abs(side, rel)]])
 
     def one_op_simple(self, side):
         d = self.rng.choice(self.dirs(side))
